@@ -3,10 +3,12 @@ package c06
 import (
 	"encoding/json"
 	"fmt"
+	"math"
 	"os"
 	"path/filepath"
 	"regexp"
 	"sort"
+	"strconv"
 	"strings"
 	"sync"
 	"time"
@@ -181,6 +183,44 @@ func (c *enumCase) reference() string {
 	obs, _ := c.observe()
 	sb.WriteString(obs)
 	return sb.String()
+}
+
+// usesPow: some initialiser of the program contains the exponentiation operator
+func (c *enumCase) usesPow() bool {
+	for _, d := range c.Decls {
+		for _, m := range d.Mem {
+			for _, t := range m.JSrc {
+				if t == "**" {
+					return true
+				}
+			}
+		}
+	}
+	return false
+}
+
+var reNumLit = regexp.MustCompile(`[0-9]+(?:\.[0-9]+)?(?:e[+-]?[0-9]+)?`)
+
+// lastUlpOnly: the two observations are equal except for numbers that differ by at most one unit in the last place
+func lastUlpOnly(a, b string) bool {
+	if reNumLit.ReplaceAllString(a, "#") != reNumLit.ReplaceAllString(b, "#") {
+		return false
+	}
+	x, y := reNumLit.FindAllString(a, -1), reNumLit.FindAllString(b, -1)
+	if len(x) != len(y) {
+		return false
+	}
+	for i := range x {
+		if x[i] == y[i] {
+			continue
+		}
+		f, e1 := strconv.ParseFloat(x[i], 64)
+		g, e2 := strconv.ParseFloat(y[i], 64)
+		if e1 != nil || e2 != nil || (math.Nextafter(f, g) != g && f != g) {
+			return false
+		}
+	}
+	return true
 }
 
 // class names the structural classes of programs that esbuild, compiling every file in isolation, cannot
@@ -431,6 +471,11 @@ func evalEnums(r *core.Run, cases []*enumCase, replay bool) {
 			got := outs[1+v]
 			det["output"], det["observed"], det["run_error"] = items[i].Srcs[1+v], got.Out, got.Error
 			if got.Error != "" || got.Out != want {
+				if got.Error == "" && !c.Exact && c.usesPow() && lastUlpOnly(want, got.Out) {
+					// structural class of a known deviation: a "**" initialiser folded by esbuild (Go's math.Pow) is one unit
+					// in the last place away from the correctly rounded value that V8 (and tsc, which runs on it) computes
+					key["deviation"] = "pow-last-ulp"
+				}
 				r.Violation(key, fmt.Sprintf("enum program behaves differently after esbuild (%s):\n%s\nexpected (TypeScript semantics: TsEnum%s, V8 on the reference translation):\n%s\nobserved:\n%s %s\noutput:\n%s",
 					p.names[v], src, map[bool]string{true: "", false: " inexact"}[c.Exact], want, got.Out, got.Error, items[i].Srcs[1+v]), det)
 			}
